@@ -39,6 +39,17 @@ static void on_sig(int s)
   }
   _exit(70);
 }
+/* polling loops (Iprobe/Test*) never end when the awaited message is never matched: bound them (20000 polls are > 10^4 simulated
+ * seconds with the growing injected sleeps, the programs need a few seconds at most) */
+static long g_spin;
+#define SPIN_RESET() (g_spin = 0)
+#define SPIN_CHECK()                                                                                                   \
+  do {                                                                                                                 \
+    if (++g_spin > 20000) {                                                                                            \
+      printf("STUCK %d %d\n", g_rank, g_op);                                                                           \
+      MPI_Abort(MPI_COMM_WORLD, 5);                                                                                    \
+    }                                                                                                                  \
+  } while (0)
 static uint32_t crctab[256];
 static void crcinit(void)
 {
@@ -256,8 +267,11 @@ int main(int argc, char** argv)
           rc   = MPI_Probe(src, tag, c, &pst);
           flag = 1;
         } else if (kind == 1) {
-          while (!flag && rc == MPI_SUCCESS)
+          SPIN_RESET();
+          while (!flag && rc == MPI_SUCCESS) {
             rc = MPI_Iprobe(src, tag, c, &flag, &pst);
+            SPIN_CHECK();
+          }
         } else
           rc = MPI_Iprobe(src, tag, c, &flag, &pst);
         if (rc != MPI_SUCCESS)
@@ -294,8 +308,11 @@ int main(int argc, char** argv)
           case 4: /* Test loop each */
             for (int k = 0; k < n; k++) {
               flag = 0;
-              while (!flag)
+              SPIN_RESET();
+              while (!flag) {
                 rc = MPI_Test(&lq[k], &flag, &lst[k]);
+                SPIN_CHECK();
+              }
               if (sl[s[k]].isrecv)
                 logrecv(sl[s[k]].op, 4, rc, &lst[k], sl[s[k]].buf, sl[s[k]].cap);
               else if (rc != MPI_SUCCESS)
@@ -308,8 +325,11 @@ int main(int argc, char** argv)
               rc = MPI_Waitall(n, lq, lst);
             else {
               flag = 0;
-              while (!flag)
+              SPIN_RESET();
+              while (!flag) {
                 rc = MPI_Testall(n, lq, &flag, lst);
+                SPIN_CHECK();
+              }
             }
             for (int k = 0; k < n; k++)
               if (sl[s[k]].isrecv)
@@ -328,8 +348,11 @@ int main(int argc, char** argv)
                 rc = MPI_Waitany(n, lq, &ix, &st);
               else {
                 flag = 0;
-                while (!flag)
+                SPIN_RESET();
+                while (!flag) {
                   rc = MPI_Testany(n, lq, &ix, &flag, &st);
+                  SPIN_CHECK();
+                }
               }
               if (ix == MPI_UNDEFINED)
                 break;
@@ -344,8 +367,10 @@ int main(int argc, char** argv)
             break;
           case 7: /* Waitsome loop */
           case 8: /* Testsome loop */
+            SPIN_RESET();
             while (ndone < n) {
               int oc = 0;
+              SPIN_CHECK();
               for (int k = 0; k < n; k++)
                 lst[k].MPI_ERROR = MPI_SUCCESS;
               rc = api == 7 ? MPI_Waitsome(n, lq, &oc, idx, lst) : MPI_Testsome(n, lq, &oc, idx, lst);
